@@ -67,6 +67,11 @@ SPS_POOL = [1, 2, 3, 4, 5, 7, 8, 9, 16, 17, 32, 64]
 WL_POOL = [1550e-9, 1310e-9, 1.5e-6, 850e-9, 1e-6]
 N_POOL = [1, 2, 3, 5, 8, 10, 16]
 NAMES = ["alpha", "beta", "G", "NF", "BW", "Vpi", "x1", "_hidden", "__x", "pulse"]
+# names that are SUBSTRINGS of the built-in attribute names (a containment test on a joined string would mistake them for
+# built-ins), and near-misses of the built-in names
+SUBSTR_NAMES = ["a", "d", "e", "f", "g", "h", "l", "n", "p", "s", "v", "len", "wave", "length", "ps", "av", "sp", "th", "eng",
+                "avelengt", "t w", "R f"]
+NEAR_NAMES = ["spsx", "Rs", "wavelength2", "f00", "NN", "tw", "ww", "dtt", "sp5", "r", "T", "W", "Dw", "fS"]
 
 
 def _custom_value(rng):
@@ -116,7 +121,8 @@ def _gen_call(rng, cur, commensurate=True):
     if rng.random() < (0.9 if form == "wl" else 0.15):
         op["wl"] = rng.choice(WL_POOL)
     if rng.random() < (0.9 if form == "kw" else 0.25):
-        op["kw"] = {rng.choice(NAMES): _custom_value(rng) for _ in range(rng.randrange(1, 4))}
+        op["kw"] = {rng.choice(NAMES if rng.random() < 0.6 else SUBSTR_NAMES if rng.random() < 0.6 else NEAR_NAMES):
+                    _custom_value(rng) for _ in range(rng.randrange(1, 4))}
     # falsy arguments: 0 / 0.0 / None behave like "not given"
     if rng.random() < 0.08:
         op[rng.choice(["sps", "R", "fs"])] = rng.choice([0, 0.0, None])
@@ -168,6 +174,9 @@ def gen_histories(rng, tier):
     ]
     for ops in D:
         cases.append({"kind": "hist", "ops": ops})
+    # names that a substring / prefix test would confuse with the built-in attributes
+    for nm in SUBSTR_NAMES + NEAR_NAMES:
+        cases.append({"kind": "hist", "ops": [{"op": "call", "kw": {nm: 3, "alpha": 1}}, {"op": "clean"}, {"op": "call", "sps": 8, "R": 1e9}]})
     # callable values and '__' names are custom attributes like any other (clean() used to keep them: fixed in /repo)
     cases.append({"kind": "hist", "ops": [{"op": "call", "kw": {"shape": "<callable>"}}, {"op": "clean"}]})
     cases.append({"kind": "hist", "ops": [{"op": "call", "kw": {"__x": 5}}, {"op": "clean"}]})
@@ -245,7 +254,7 @@ def run_hist(case):
         # start every history from a clean() applied to a deliberately dirty object (makes the case self-contained)
         with warnings.catch_warnings():
             warnings.simplefilter("ignore")
-            gv(sps=4, R=2e9, N=3, wavelength=1310e-9, zz_probe=1, _hidden=1, alpha="a", __y=1, pulse=len)
+            gv(sps=4, R=2e9, N=3, wavelength=1310e-9, zz_probe=1, _hidden=1, alpha="a", __y=1, pulse=len, length=1, s=2, f=3)
         gv.clean()
         res["start"] = _snap(gv)
         for i, op in enumerate(case["ops"]):
@@ -304,8 +313,8 @@ def _op_toks(op):
 def _hist_requests(case):
     for op in case["ops"]:
         if op["op"] == "call":
-            if any(k in RESERVED for k in (op.get("kw") or {})):
-                return []
+            if any(k in RESERVED or not k.isidentifier() for k in (op.get("kw") or {})):
+                return []          # reserved names / names with blanks: oracle only (outside the model's wire format)
             if op.get("N") is not None and not isinstance(op["N"], int):
                 return []
     ops = " ".join(_op_toks(op) for op in case["ops"])
